@@ -199,8 +199,11 @@ impl VisitMut for OperationTransformVisitor<'_> {
     }
 
     fn visit_mut_if_stmt(&mut self, if_stmt: &mut IfStmt) {
-        if_stmt.test.visit_mut_children_with(self);
-        if_stmt.cons.visit_mut_children_with(self);
+        if_stmt.test.visit_mut_with(self);
+        if_stmt.cons.visit_mut_with(self);
+        if let Some(alt) = if_stmt.alt.as_mut() {
+            alt.visit_mut_with(self);
+        }
     }
 
     // cancel visit child blocks
